@@ -242,7 +242,57 @@ fn debug_dump(runner: &Runner) {
             }
         }
     }
-    eprintln!("model: {:#?}", runner.model);
+    for ca in runner.model.cas.values() {
+        for class in crate::objsets::read(runner.world.inst(ca.inst).rt(), &ca.name) {
+            for set in &class.sets {
+                eprintln!(
+                    "OBJSET {} class {} state {} {} key {} number {} this {} next {} products {:?}",
+                    ca.name, class.rcn, class.state, set.role, set.key_id,
+                    set.number, set.this_update, set.next_update,
+                    set.products.keys().collect::<Vec<_>>()
+                );
+            }
+        }
+    }
+    if let Ok(rp) = runner.world.rp_walk(0, &Default::default()) {
+        for pp in &rp.pub_points {
+            eprintln!(
+                "PUBPOINT {} number {} this {} next {} products {}",
+                pp.mft_uri, pp.mft_number, pp.mft_this_update.timestamp(),
+                pp.mft_next_update.timestamp(), pp.products.len()
+            );
+        }
+        eprintln!("RP issues: {:?}", rp.issues);
+    }
+    if let Ok((objects, _)) = runner.world.objects(0) {
+        for (uri, bytes) in &objects {
+            if uri.ends_with(".mft") {
+                if let Ok(mft) = rpki::repository::manifest::Manifest::decode(bytes.clone(), false) {
+                    eprintln!(
+                        "MFT {} number {} this {} next {} ee {}..{}",
+                        uri, mft.content().manifest_number(),
+                        mft.content().this_update().timestamp(),
+                        mft.content().next_update().timestamp(),
+                        mft.cert().validity().not_before().timestamp(),
+                        mft.cert().validity().not_after().timestamp()
+                    );
+                }
+            }
+            if uri.ends_with(".cer") {
+                if let Ok(cert) = rpki::repository::cert::Cert::decode(bytes.clone()) {
+                    eprintln!(
+                        "CER {} {}..{}", uri,
+                        cert.validity().not_before().timestamp(),
+                        cert.validity().not_after().timestamp()
+                    );
+                }
+            }
+        }
+    }
+    eprintln!("now {}", crate::seams::now_secs());
+    if std::env::var("VERIF_DEBUG_MODEL").is_ok() {
+        eprintln!("model: {:#?}", runner.model);
+    }
 }
 
 fn finish(
